@@ -21,6 +21,16 @@ VX long verif_alloc_bytes = 0;
 
 static void *verif_malloc(size_t n) {
     void *p;
+#ifdef VERIF_SCHED
+    /* schedule harness: no shared counters (they would be the only shared writes); heap objects belong to the
+     * logical thread that allocated them */
+    p = malloc(n);
+    if (p != NULL) sched_private_add(p, n, sched_cur);
+    return p;
+#elif defined(REAL_TSAN)
+    p = malloc(n);
+    return p;
+#else
     long k = verif_alloc_calls++;
     if (verif_alloc_fail_at >= 0 && k == verif_alloc_fail_at) {
         return NULL;
@@ -28,9 +38,14 @@ static void *verif_malloc(size_t n) {
     p = malloc(n);
     if (p != NULL) { verif_alloc_count++; verif_alloc_bytes += (long)n; }
     return p;
+#endif
 }
 static void verif_free(void *p) {
+#ifdef VERIF_SCHED
+    if (p != NULL) sched_private_del(p);
+#elif !defined(REAL_TSAN)
     if (p != NULL) verif_free_count++;
+#endif
     free(p);
 }
 VX void verif_alloc_reset(long fail_at) {
